@@ -9,6 +9,7 @@ import re
 from os.path import splitext
 
 from ural.ensure_protocol import ensure_protocol
+from ural.canonicalize_url import canonicalize_url
 from ural.infer_redirection import infer_redirection as resolve
 from ural.utils import (
     safe_qsl_iter,
@@ -263,6 +264,10 @@ def normalize_url(
     # NOTE: the platform predicates parse the url and can raise ValueError
     if platform_aware:
         try:
+            # NOTE: the platform parsers must see one spelling of the url
+            # (e.g. "/%77atch" vs. "/watch", "/./watch")
+            url = canonicalize_url(url)
+
             if is_facebook_url(url):
                 p = parse_facebook_url(url)
 
